@@ -198,6 +198,14 @@ func main() {
 			[]string{"/v1.0/status", "/{p}/status"}, []string{"/files/{p}.json"}, []string{"/files/{p}.json", "/files/{p}.json/meta"}, []string{"/docs/index.html", "/docs/{p}"},
 			[]string{"/a_b/{p}~c"}, []string{"/t/{p}!{q}"}, []string{"/t/{p}*"}, []string{"/r/{p}:{q}"}, []string{"/r/{p};v={q}"}, []string{"/files/{p}.{q}"},
 		)
+		// static text written with literal non-ASCII characters: behind a parameter (alone, next to an
+		// ASCII tail, next to a second non-ASCII tail with the same and with another first byte), as
+		// sibling static segments that part inside a character, before a parameter, between two
+		sets = append(sets,
+			[]string{"/h/{p}\u00e9"}, []string{"/f/{p}\u00e9", "/f/{p}-x"}, []string{"/f/{p}\u00e9", "/f/{p}\u00e8"}, []string{"/f/{p}\u00e9", "/f/{p}\u65e5"},
+			[]string{"/f/{p}\u00e9", "/f/{p}\u65e5", "/f/{p}.z"}, []string{"/g/\u00e9", "/g/\u00e8"}, []string{"/g/\u00e9", "/g/{p}"}, []string{"/\u00e9/{p}"}, []string{"/\u65e5\u672c/{p}/z"},
+			[]string{"/k/{p}\u00e9{q}"}, []string{"/k/{p}\u00e9{q}", "/k/{p}-{q}"}, []string{"/m/{p}\u00e9/x", "/m/{p}/y"},
+		)
 		if r.Thorough() {
 			red := templatesOver([]string{"a", "{p}", "a{p}", "{p}a"}, 2)
 			for _, s := range subsets(red, 3) {
@@ -214,6 +222,15 @@ func main() {
 		}
 	}
 
+	if os.Getenv("VERIF_C05_ONLY") == "nonascii" { // development aid: only the sets with non-ASCII text
+		var keep [][]string
+		for _, s := range sets {
+			if strings.IndexFunc(strings.Join(s, ""), func(r rune) bool { return r >= 0x80 }) >= 0 {
+				keep = append(keep, s)
+			}
+		}
+		sets = keep
+	}
 	sc := regen.NewScratch(r)
 	defer sc.Close()
 	t0 := time.Now()
